@@ -114,6 +114,7 @@ func runC09(run *Run, replay string) {
 		walk(nil, ts)
 		if sc.Kind == "tf" {
 			elemRangeOracle(run, sc, ts, loc)
+			cfgTargetableOracle(run, ts, loc)
 		}
 		targetableOracle(run, sc, ts, loc)
 		mergeCases(run, sc, 6)
@@ -264,6 +265,15 @@ func runC08(run *Run, replay string) {
 	for i := 0; i < n; i++ {
 		r := rand.New(rand.NewSource(subSeed(run.Res.Seed, i)))
 		sc, cfg := tfScenario(r)
+		files := map[string]string{"main.tf": cfg.Src}
+		if i%2 == 1 {
+			// a second file of the same path with other declarations: its block-local names
+			// (count.index, each.*, self.*) must not be visible from this file
+			files["other.tf"] = genTf(r).Src
+			w := newWorld()
+			pd := w.AddPath("root", tfSchema(), files, sc.Main.Ctx.Functions)
+			sc = &Scenario{W: w, Main: pd, File: "main.tf", Src: sc.Src, Kind: "tf"}
+		}
 		sc.W.Collect()
 		d, _ := sc.W.Dec.Path(sc.Main.Path)
 		var flat []reference.Target
@@ -281,7 +291,7 @@ func runC08(run *Run, replay string) {
 		loc := map[string]interface{}{"seed": run.Res.Seed, "config": i, "src": cfg.Src}
 		for _, o := range sc.Main.Ctx.ReferenceOrigins {
 			lo, ok := o.(reference.LocalOrigin)
-			if !ok {
+			if !ok || lo.Range.Filename != "main.tf" {
 				continue
 			}
 			s, e := lo.Range.Start.Byte, lo.Range.End.Byte
@@ -297,7 +307,11 @@ func runC08(run *Run, replay string) {
 				typed := string(sc.Src[s:cut])
 				nsrc := string(sc.Src[:cut]) + string(sc.Src[e:])
 				w2 := newWorld()
-				pd2 := w2.AddPath("root", tfSchema(), map[string]string{"main.tf": nsrc}, sc.Main.Ctx.Functions)
+				files2 := map[string]string{"main.tf": nsrc}
+				if o, ok := files["other.tf"]; ok {
+					files2["other.tf"] = o
+				}
+				pd2 := w2.AddPath("root", tfSchema(), files2, sc.Main.Ctx.Functions)
 				w2.Collect()
 				d2, _ := w2.Dec.Path(pd2.Path)
 				_ = d
@@ -331,7 +345,10 @@ func runC08(run *Run, replay string) {
 					m["buffer"] = nsrc
 					if !strings.HasPrefix(c.Label, typed) {
 						key := "C08/reference-candidate-ignores-typed-text"
-						if exprAtIsParserPlaceholder(pd2, pos) {
+						if (c.Label == "self" || strings.HasPrefix(c.Label, "self.")) && crossFileSelfAt(pd2, "main.tf", pos) {
+							// Target.Address labels a declaration of another file self.* when its byte range contains the cursor
+							key += "/self-address-chosen-by-byte-range-of-another-file"
+						} else if exprAtIsParserPlaceholder(pd2, pos) {
 							// the parser could not recover the half-typed expression at all: the syntax tree holds a
 							// placeholder literal in its place and the library completes as for an empty value
 							key += "/expression-replaced-by-parser-placeholder"
@@ -348,7 +365,7 @@ func runC08(run *Run, replay string) {
 					if strings.HasPrefix(c.Label, "self.") || strings.HasPrefix(c.Label, "count.") || strings.HasPrefix(c.Label, "each.") {
 						visible := false
 						for _, t := range ts {
-							if t.TargetableFromRangePtr == nil || (t.TargetableFromRangePtr.Start.Byte <= pos.Byte && pos.Byte <= t.TargetableFromRangePtr.End.Byte) {
+							if t.TargetableFromRangePtr == nil || (t.TargetableFromRangePtr.Filename == "main.tf" && t.TargetableFromRangePtr.Start.Byte <= pos.Byte && pos.Byte <= t.TargetableFromRangePtr.End.Byte) {
 								visible = true
 							}
 						}
